@@ -60,6 +60,17 @@ def apply(ex, fn, args, kwargs, st, n):
     if k == 'method':
         base, attr = fn.py
         return call_method(ex, base, attr, args, kwargs, st, n)
+    if k == 'globalexpr':
+        module, gname, node = fn.py
+        q = module + '.' + gname
+        if q in ptypes.NAMED_TUPLE_TYPES:
+            pt, names = ptypes.NAMED_TUPLE_TYPES[q]
+            vals = dict(zip(names, args))
+            vals.update(kwargs)
+            if set(vals) != set(names):
+                raise PyExc(ExcV('TypeError'))
+            parts = [ex.coerce(vals[nm], pt.args[i], st).t for i, nm in enumerate(names)]
+            return SV(pt, ptypes.mk_tuple(pt, parts))
     if k == 'module' and fn.py in ('defaultdict', 'OrderedDict', 'collections.OrderedDict', 'collections.defaultdict'):
         return SV(PT('emptydict'))
     if k == 'mtag':
